@@ -690,7 +690,15 @@ def devirtualise_polls(raw, paths):
     return n
 
 
-def inline_new_edges(raw, ref_callees, changed, known, reinlined=None):
+# reference functions whose body is analysed structurally and whose call no rule uses as an event: a changed function that
+# newly delegates to one of them may see its body even though rules name it (one line of reason each)
+SPLICEABLE = {
+    "message::MessageView::<'a>::from_slice": "slice parser: C02/C01 judge its guards, regions and slots from the body; callers only need its Ok payload",
+    "message::Message::from_slice": "slice parser, same reason",
+}
+
+
+def inline_new_edges(raw, ref_callees, changed, known, reinlined=None, rule_words=None):
     """A changed reference function that now calls a reference helper it did not call before (delegation to an existing
     function: `Message::from_slice` built on `MessageView::from_slice`) is judged on what that call does: the helper's
     body is spliced in at the new call sites only; the helper itself, and its other callers, are left as they are.
@@ -723,6 +731,10 @@ def inline_new_edges(raw, ref_callees, changed, known, reinlined=None):
                     continue
                 cp = t["callee"]["path"]
                 if cp not in bodies or cp not in known or "{closure" in cp or cp == base or cp in had:
+                    continue
+                # a function some rule names is an event or a summarised step for that rule (Header::encode = "the header is
+                # emitted here"): its call stays a call, unless listed above
+                if rule_words is not None and cp.rsplit("::", 1)[-1] in rule_words and cp not in SPLICEABLE:
                     continue
                 cb = bodies[cp]
                 if cb["kind"] not in ("fn", "method") or cb.get("is_async") or len(cb["blocks"]) > MAX_BLOCKS or cp in _direct_callees(cb):
